@@ -393,6 +393,18 @@ def check_r183(fx, rep, cg):
             data_arg = allargs[1] if len(allargs) > 1 else None
             if data_arg is None:
                 continue
+            # the data may be let-bound in front of the call (`let data = match .. { .. }; RSV::new(ip, data, ..)`)
+            hops = 0
+            while hops < 4 and F.local_of(F.strip(data_arg)) is not None:
+                lid_d = F.local_of(F.strip(data_arg))
+                init_d = None
+                for m_, _ in F.walk(b["hir"]["value"]):
+                    if m_.get("s") == "Let" and "init" in m_ and m_["pat"].get("p") == "Bind" and m_["pat"].get("local") == lid_d:
+                        init_d = m_["init"]
+                if init_d is None:
+                    break
+                data_arg = init_d
+                hops += 1
             for S, sps in F.walk(data_arg):
                 if S.get("k") != "Struct" or S.get("adt") != SVD or S.get("variant") in ("KnownData", "Value"):
                     continue
@@ -412,6 +424,22 @@ def check_r183(fx, rep, cg):
                                         break
                                 if init_l is not None and init_l == x:
                                     closed = True
+                        # `match <child>.data() { <same variant> {..} => reuse, _ => build }`: closed by an earlier arm of that
+                        # variant WITHOUT a guard (a guarded arm lets the variant fall through to the building arm)
+                        if anc.get("k") == "Match" and isinstance(key, str) is not None:
+                            mine = None
+                            for ai, a_ in enumerate(anc.get("arms", [])):
+                                if any(y is S for y, _ in F.walk(a_["body"])):
+                                    mine = ai
+                            if mine is not None:
+                                scr_l = None
+                                for m_, _ in F.walk(anc["scrut"]):
+                                    if m_.get("k") == "Path" and m_.get("res") == "local":
+                                        scr_l = m_["local"]
+                                        break
+                                for a_ in anc["arms"][:mine]:
+                                    if (F.pat_variants(a_["pat"]) or set()) == {(SVD, S["variant"])} and a_.get("guard") is None and scr_l is not None and scr_l == x:
+                                        closed = True
                     rep.oblige(
                         closed,
                         "R18.3",
